@@ -69,7 +69,13 @@ static void val_print_rec(NanoValue v, FILE *out, const void **chain, int depth)
                 fprintf(out, "[");
                 for (uint32_t i = 0; i < v.as.array->length; i++) {
                     if (i > 0) fprintf(out, ", ");
-                    val_print_rec(v.as.array->elements[i], out, chain, depth);
+                    NanoValue el = v.as.array->elements[i];
+                    if (el.tag == TAG_STRING) {
+                        /* string elements are quoted, as the compiled program and the evaluator print them */
+                        fprintf(out, "\"%s\"", el.as.string ? vmstring_cstr(el.as.string) : "");
+                    } else {
+                        val_print_rec(el, out, chain, depth);
+                    }
                 }
                 fprintf(out, "]");
             } else {
